@@ -196,3 +196,17 @@ Proof.
   - rewrite E, app_length in L. simpl in L. lia.
   - rewrite E, app_length in L. simpl in L. lia.
 Qed.
+
+(* PASERK texts have no alias at all: two accepted strings with the same data are the same string — so a wrapped or
+   sealed key text that was extended, truncated or changed in place either does not parse or carries other bytes *)
+Corollary paserk_text_injective ver kind s1 s2 d :
+  parse_paserk ver kind s1 = Ok d -> parse_paserk ver kind s2 = Ok d -> s1 = s2.
+Proof.
+  intros H1 H2. apply paserk_print_parse in H1, H2. congruence.
+Qed.
+Corollary paserk_text_change_changes_data ver kind s1 s2 d1 d2 :
+  parse_paserk ver kind s1 = Ok d1 -> parse_paserk ver kind s2 = Ok d2 -> s1 <> s2 -> d1 <> d2.
+Proof.
+  intros H1 H2 N E. subst d2. apply N. eapply paserk_text_injective; eassumption.
+Qed.
+
